@@ -14,6 +14,7 @@ import (
 
 	"verifh/mon"
 	refsm3 "verifh/ref/sm3"
+	refsm9 "verifh/ref/sm9"
 )
 
 // ---------------------------------------------------------------------------
@@ -241,10 +242,11 @@ func prepSM9GenSign(x *env, r *mon.Rand, variant string) *call {
 		if m == nil {
 			return
 		}
-		kb := m.Bytes()
-		pub := m.PublicKey().Bytes()
+		kb := append([]byte{}, m.Bytes()...)
+		pub := append([]byte{}, m.PublicKey().Bytes()...)
 		o.output = fmt.Sprintf("master key %x", kb)
-		o.out = append(append([]byte{}, kb...), pub...)
+		o.live = func() []byte { return append(append([]byte{}, m.Bytes()...), m.PublicKey().Bytes()...) }
+		o.out = o.live()
 		if len(kb) != 32 {
 			o.match = func(*big.Int) string { return fmt.Sprintf("master key has %d bytes", len(kb)) }
 			return
@@ -273,10 +275,11 @@ func prepSM9GenEnc(x *env, r *mon.Rand, variant string) *call {
 		if m == nil {
 			return
 		}
-		kb := m.Bytes()
-		pub := m.PublicKey().Bytes()
+		kb := append([]byte{}, m.Bytes()...)
+		pub := append([]byte{}, m.PublicKey().Bytes()...)
 		o.output = fmt.Sprintf("master key %x", kb)
-		o.out = append(append([]byte{}, kb...), pub...)
+		o.live = func() []byte { return append(append([]byte{}, m.Bytes()...), m.PublicKey().Bytes()...) }
+		o.out = o.live()
 		if len(kb) != 32 {
 			o.match = func(*big.Int) string { return fmt.Sprintf("master key has %d bytes", len(kb)) }
 			return
@@ -300,13 +303,18 @@ func prepSM9Sign(x *env, r *mon.Rand, variant string) *call {
 }
 
 func sm9SignCall(ks *sm9KeySet, msg []byte, variant string) *call {
+	return sm9SignCallOn(ks, ks.signUser, msg, variant)
+}
+
+// sm9SignCallOn signs with the key object user (the user key of ks, possibly another object holding it).
+func sm9SignCallOn(ks *sm9KeySet, user *sm9.SignPrivateKey, msg []byte, variant string) *call {
 	c := &call{inputs: fmt.Sprintf("ks=%064x uid=%x hid=%d msg=%x", ks.ks, ks.signUID, ks.signHID, msg)}
 	c.run = func(rnd io.Reader) (o outcome) {
 		var h, S []byte
 		switch variant {
 		case "sm9.Sign->(h,S)":
 			var hi *big.Int
-			hi, S, o.err = sm9.Sign(rnd, ks.signUser, msg)
+			hi, S, o.err = sm9.Sign(rnd, user, msg)
 			if hi != nil {
 				h = hi.Bytes()
 			}
@@ -317,9 +325,9 @@ func sm9SignCall(ks *sm9KeySet, msg []byte, variant string) *call {
 		default:
 			var sig []byte
 			if variant == "priv.Sign" {
-				sig, o.err = ks.signUser.Sign(rnd, msg, nil)
+				sig, o.err = user.Sign(rnd, msg, nil)
 			} else {
-				sig, o.err = sm9.SignASN1(rnd, ks.signUser, msg)
+				sig, o.err = sm9.SignASN1(rnd, user, msg)
 			}
 			if len(sig) == 0 {
 				return
@@ -346,19 +354,27 @@ func sm9SignCall(ks *sm9KeySet, msg []byte, variant string) *call {
 
 func prepSM9Wrap(x *env, r *mon.Rand, variant string) *call {
 	ks := x.sm9k[r.Intn(len(x.sm9k))]
+	return prepSM9WrapOn(ks, ks.encM.PublicKey(), r, variant)
+}
+
+func prepSM9WrapOn(ks *sm9KeySet, pub *sm9.EncryptMasterPublicKey, r *mon.Rand, variant string) *call {
 	uid := r.Bytes(r.Range(1, 24))
 	hid := byte(r.Range(1, 255))
 	klen := []int{16, 32, 48, 7, 100}[r.Intn(5)]
 	if variant == "sm9.WrapKey(klen<=2)" {
 		klen = r.Range(1, 2)
 	}
-	return sm9WrapCall(ks, uid, hid, klen, variant)
+	return sm9WrapCallOn(ks, pub, uid, hid, klen, variant)
 }
 
 func sm9WrapCall(ks *sm9KeySet, uid []byte, hid byte, klen int, variant string) *call {
+	return sm9WrapCallOn(ks, ks.encM.PublicKey(), uid, hid, klen, variant)
+}
+
+// sm9WrapCallOn encapsulates with the master public key object pub (the one of ks, possibly another object holding it).
+func sm9WrapCallOn(ks *sm9KeySet, pub *sm9.EncryptMasterPublicKey, uid []byte, hid byte, klen int, variant string) *call {
 	c := &call{inputs: fmt.Sprintf("ke=%064x uid=%x hid=%d klen=%d", ks.ke, uid, hid, klen)}
 	c.run = func(rnd io.Reader) (o outcome) {
-		pub := ks.encM.PublicKey()
 		var key, cipher []byte
 		switch variant {
 		case "pub.WrapKey":
@@ -434,6 +450,10 @@ func sm9EncOpts(variant string) (opts sm9.EncrypterOpts, extra int) {
 
 func prepSM9Encrypt(x *env, r *mon.Rand, variant string) *call {
 	ks := x.sm9k[r.Intn(len(x.sm9k))]
+	return prepSM9EncryptOn(ks, ks.encM.PublicKey(), r, variant)
+}
+
+func prepSM9EncryptOn(ks *sm9KeySet, pub *sm9.EncryptMasterPublicKey, r *mon.Rand, variant string) *call {
 	uid := r.Bytes(r.Range(1, 24))
 	hid := byte(r.Range(1, 255))
 	msg := r.Bytes([]int{1, 15, 16, 17, 40}[r.Intn(5)])
@@ -441,7 +461,6 @@ func prepSM9Encrypt(x *env, r *mon.Rand, variant string) *call {
 	c.run = func(rnd io.Reader) (o outcome) {
 		opts, extra := sm9EncOpts(variant)
 		o.extra = extra
-		pub := ks.encM.PublicKey()
 		var ct, c1 []byte
 		switch variant {
 		case "EncryptASN1(XOR)", "pub.Encrypt(CBC)":
@@ -488,24 +507,102 @@ func prepSM9Encrypt(x *env, r *mon.Rand, variant string) *call {
 	return c
 }
 
+// sm9Kx are the constructor arguments of one SM9 key-exchange object (owner = user A or B of the key set).
+type sm9Kx struct {
+	ks              *sm9KeySet
+	ownIsA          bool
+	uidOwn, uidPeer []byte
+	klen            int
+	sig             bool
+}
+
+func newSM9Kx(ks *sm9KeySet, ownIsA bool, klen int, sig bool) sm9Kx {
+	p := sm9Kx{ks: ks, ownIsA: ownIsA, uidOwn: ks.uidB, uidPeer: ks.uidA, klen: klen, sig: sig}
+	if ownIsA {
+		p.uidOwn, p.uidPeer = ks.uidA, ks.uidB
+	}
+	return p
+}
+
+func (p sm9Kx) String() string {
+	return fmt.Sprintf("ke=%064x uidOwn=%x uidPeer=%x hid=%d klen=%d confirm=%v", p.ks.ke, p.uidOwn, p.uidPeer, p.ks.encHID, p.klen, p.sig)
+}
+
+// sm9KxObj is one key-exchange object a caller keeps.
+type sm9KxObj struct {
+	p  sm9Kx
+	ke sm9.KeyExchange
+}
+
+// newSM9KxObj builds the object on user (nil: the shared user key object of the key set).
+func newSM9KxObj(p sm9Kx, user *sm9.EncryptPrivateKey) *sm9KxObj {
+	if user == nil {
+		user = p.ks.userB
+		if p.ownIsA {
+			user = p.ks.userA
+		}
+	}
+	return &sm9KxObj{p: p, ke: user.NewKeyExchange(p.uidOwn, p.uidPeer, p.klen, p.sig)}
+}
+
+// kexRef is GM/T 0044.3 6.2 for ephemeral scalars rA (initiator, identity idA) and rB:
+// RA = [rA]QB, RB = [rB]QA, g1 = g^rA, g2 = g^rB, g3 = g^(rA rB) with g = e(Ppub-e, P2).
+func (ks *sm9KeySet) kexRef(idA, idB []byte, rA, rB *big.Int, klen int) (ra, rb []byte, res refsm9.KexResult) {
+	ra = g1Mul(userPubEnc(ks.ppubE, idB, ks.encHID), rA).MarshalUncompressed()
+	rb = g1Mul(userPubEnc(ks.ppubE, idA, ks.encHID), rB).MarshalUncompressed()
+	g1 := new(hook.GT).ScalarMult(ks.gEnc, rA)
+	g2 := new(hook.GT).ScalarMult(ks.gEnc, rB)
+	ab := new(big.Int).Mul(rA, rB)
+	g3 := new(hook.GT).ScalarMult(ks.gEnc, ab.Mod(ab, sm9N))
+	return ra, rb, refsm9.Kex(idA, idB, ra[1:], rb[1:], g1.Marshal(), g2.Marshal(), g3.Marshal(), klen)
+}
+
 func prepSM9KxInit(x *env, r *mon.Rand, variant string) *call {
 	ks := x.sm9k[r.Intn(len(x.sm9k))]
-	klen := r.Range(1, 48)
-	c := &call{inputs: fmt.Sprintf("ke=%064x uidA=%x uidB=%x hid=%d klen=%d", ks.ke, ks.uidA, ks.uidB, ks.encHID, klen)}
+	return sm9KxInitCall(nil, newSM9Kx(ks, true, r.Range(1, 48), true), randScalar(r, sm9N))
+}
+
+// sm9KxInitCall is InitKeyExchange on the kept object obj (nil: a new object per run); rPeer is the
+// ephemeral scalar of the honest responder the follow-up oracle plays.
+func sm9KxInitCall(obj *sm9KxObj, p sm9Kx, rPeer *big.Int) *call {
+	ks := p.ks
+	c := &call{inputs: p.String()}
 	c.run = func(rnd io.Reader) (o outcome) {
-		ke := ks.userA.NewKeyExchange(ks.uidA, ks.uidB, klen, true)
-		rA, err := ke.InitKeyExchange(rnd, ks.encHID)
+		ko := obj
+		if ko == nil {
+			ko = newSM9KxObj(p, nil)
+		}
+		rA, err := ko.ke.InitKeyExchange(rnd, ks.encHID)
 		o.err = err
 		if len(rA) == 0 {
 			return
 		}
+		rA = append([]byte{}, rA...)
 		o.output = fmt.Sprintf("RA %x", rA)
 		o.out = rA
-		q := userPubEnc(ks.ppubE, ks.uidB, ks.encHID)
+		q := userPubEnc(ks.ppubE, p.uidPeer, ks.encHID)
 		o.match = func(k *big.Int) string {
 			want := g1Mul(q, k).MarshalUncompressed()
 			if !bytes.Equal(rA, want) {
 				return fmt.Sprintf("RA = %x is not [k]QB = %x", rA, want)
+			}
+			return ""
+		}
+		o.follow = func(k *big.Int) string { // steps A5-A7 against the honest responder of the reference model
+			_, rb, ref := ks.kexRef(p.uidOwn, p.uidPeer, k, rPeer, p.klen)
+			var sB []byte
+			if p.sig {
+				sB = ref.SB
+			}
+			key, sA, err := ko.ke.ConfirmResponder(rb, sB)
+			if err != nil {
+				return fmt.Sprintf("ConfirmResponder refuses the honest responder's answer (RB=[%x]QA, SB) to RA=[k]QB: %v - the object does not continue with the scalar it sampled", rPeer, err)
+			}
+			if !bytes.Equal(key, ref.SK) {
+				return fmt.Sprintf("ConfirmResponder derives key %x, GM/T 0044.3 with rA=k gives %x - the object does not continue with the scalar it sampled", key, ref.SK)
+			}
+			if p.sig && !bytes.Equal(sA, ref.SA) {
+				return fmt.Sprintf("ConfirmResponder returns SA=%x, GM/T 0044.3 with rA=k gives %x", sA, ref.SA)
 			}
 			return ""
 		}
@@ -516,25 +613,50 @@ func prepSM9KxInit(x *env, r *mon.Rand, variant string) *call {
 
 func prepSM9KxRespond(x *env, r *mon.Rand, variant string) *call {
 	ks := x.sm9k[r.Intn(len(x.sm9k))]
-	klen := r.Range(1, 48)
-	rAk := randScalar(r, sm9N)
-	sig := variant == "RespondKeyExchange(sig)"
-	c := &call{inputs: fmt.Sprintf("ke=%064x uidA=%x uidB=%x hid=%d klen=%d rA-scalar=%064x", ks.ke, ks.uidA, ks.uidB, ks.encHID, klen, rAk)}
+	return sm9KxRespondCall(nil, newSM9Kx(ks, false, r.Range(1, 48), variant == "RespondKeyExchange(sig)"), randScalar(r, sm9N))
+}
+
+// sm9KxRespondCall is RespondKeyExchange(RA = [rPeer]Q_own) on the kept object obj (nil: a new one per run).
+func sm9KxRespondCall(obj *sm9KxObj, p sm9Kx, rPeer *big.Int) *call {
+	ks := p.ks
+	c := &call{inputs: fmt.Sprintf("%s rA-scalar=%064x", p, rPeer)}
 	c.run = func(rnd io.Reader) (o outcome) {
-		rA := g1Mul(userPubEnc(ks.ppubE, ks.uidB, ks.encHID), rAk).MarshalUncompressed()
-		ke := ks.userB.NewKeyExchange(ks.uidB, ks.uidA, klen, sig)
-		rB, sB, err := ke.RespondKeyExchange(rnd, ks.encHID, rA)
+		ko := obj
+		if ko == nil {
+			ko = newSM9KxObj(p, nil)
+		}
+		rA := g1Mul(userPubEnc(ks.ppubE, p.uidOwn, ks.encHID), rPeer).MarshalUncompressed()
+		rB, sB, err := ko.ke.RespondKeyExchange(rnd, ks.encHID, rA)
 		o.err = err
 		if len(rB) == 0 && len(sB) == 0 {
 			return
 		}
+		rB, sB = append([]byte{}, rB...), append([]byte{}, sB...)
 		o.output = fmt.Sprintf("RB %x confirmation %x", rB, sB)
 		o.out = append(append([]byte{}, rB...), sB...)
-		q := userPubEnc(ks.ppubE, ks.uidA, ks.encHID)
+		q := userPubEnc(ks.ppubE, p.uidPeer, ks.encHID)
 		o.match = func(k *big.Int) string {
 			want := g1Mul(q, k).MarshalUncompressed()
 			if !bytes.Equal(rB, want) {
 				return fmt.Sprintf("RB = %x is not [k]QA = %x", rB, want)
+			}
+			return ""
+		}
+		o.follow = func(k *big.Int) string { // SB and step B8 against the honest initiator of the reference model
+			_, _, ref := ks.kexRef(p.uidPeer, p.uidOwn, rPeer, k, p.klen)
+			var s1 []byte
+			if p.sig {
+				if !bytes.Equal(sB, ref.SB) {
+					return fmt.Sprintf("confirmation SB=%x, GM/T 0044.3 with rB=k gives %x - g2/g3 were not computed with the sampled scalar", sB, ref.SB)
+				}
+				s1 = ref.SA
+			}
+			key, err := ko.ke.ConfirmInitiator(s1)
+			if err != nil {
+				return fmt.Sprintf("ConfirmInitiator refuses the honest initiator's confirmation for RB=[k]QA: %v", err)
+			}
+			if !bytes.Equal(key, ref.SK) {
+				return fmt.Sprintf("ConfirmInitiator derives key %x, GM/T 0044.3 with rB=k gives %x - the object does not continue with the scalar it sampled", key, ref.SK)
 			}
 			return ""
 		}
